@@ -5,6 +5,10 @@ import (
 	"fmt"
 	"testing"
 
+	"github.com/wokdav/gopki/generator/config"
+	"github.com/wokdav/gopki/generator/db"
+	"github.com/wokdav/gopki/generator/db/filesystem"
+
 	"verif/harness/core"
 	"verif/harness/der"
 	"verif/harness/ecref"
@@ -116,7 +120,7 @@ func checkC05(c c05Case) (*core.Failure, string) {
 func TestC05(t *testing.T) {
 	r := core.Start(t, "C05")
 	defer r.Finish()
-	r.Rule = "exhaustive table: keyAlgorithm in {omitted, 14 names} x signatureAlgorithm in {omitted, 8 names} for self-signed roots, and the same table below pre-placed RSA-2048, P-384 and brainpoolP384r1 issuers (keys are generated by gopki for the subject, never pre-placed). Quick tier leaves out the cells that generate RSA-4096/RSA-8192 keys (0.8 s / ~50 s per key); thorough runs all of them. Oracle: decoded PRIVATE KEY block (modulus length / curve OID from RFC 5480/5639), SPKI algorithm and parameters, SPKI bits == public key recomputed from the private key (own d*G), signature OIDs. Additionally every EC curve is generated 60 (quick) / 1200 (thorough) more times (value-dependent encodings), and the RSA-4096/8192 signature-identifier cells are run with pooled pre-placed keys in both tiers. Non-trivial = cell whose signature algorithm fits the signing key (a certificate must exist); every cell (and repeat) counts once."
+	r.Rule = "exhaustive table: keyAlgorithm in {omitted, 14 names} x signatureAlgorithm in {omitted, 8 names} for self-signed roots, and the same table below pre-placed RSA-2048, P-384 and brainpoolP384r1 issuers (keys are generated by gopki for the subject, never pre-placed). Quick tier leaves out the cells that generate RSA-4096/RSA-8192 keys (0.8 s / ~50 s per key); thorough runs all of them. Oracle: decoded PRIVATE KEY block (modulus length / curve OID from RFC 5480/5639), SPKI algorithm and parameters, SPKI bits == public key recomputed from the private key (own d*G), signature OIDs. Additionally every EC curve is generated 60 (quick) / 1200 (thorough) more times (value-dependent encodings), and the RSA-4096/8192 signature-identifier cells are run with pooled pre-placed keys in both tiers. Sessions on one open database: a first attempt fails (signature algorithm of the wrong family, after the key was made), the corrected configuration with another keyAlgorithm is handed in through db.AddAndSign and must get a key of that algorithm. Non-trivial = cell whose signature algorithm fits the signing key (a certificate must exist); every cell (and repeat) counts once."
 	r.Assumptions = []string{"omitted keyAlgorithm: P-256 and P-224 both accepted (the documentation names both)", "cells whose signature algorithm does not fit the signing key must fail; that part is C01's and only counted here"}
 	wrap := func(c c05Case) *core.Failure {
 		f, kind := checkC05(c)
@@ -132,11 +136,27 @@ func TestC05(t *testing.T) {
 		r.Sample(role+":"+kind, c)
 		return f
 	}
+	session := func(c c05Session) *core.Failure {
+		r.Case(fmt.Sprintf("session %+v", c), "session:failed-then-corrected")
+		return checkC05Session(c)
+	}
+	core.Register(r, "session", session)
 	core.Register(r, "cell", wrap)
 	if r.Replays() {
 		return
 	}
 	i := 0
+	for _, iss := range []string{"RSA-2048", "P-384"} {
+		for _, bad := range []string{"P-256", "RSA-1024", "brainpoolP256r1"} {
+			for _, good := range []string{"RSA-1024", "P-224", "P-384", "brainpoolP384t1"} {
+				i++
+				if bad != good && r.Mine(i) {
+					c := c05Session{IssuerAlg: iss, BadAlg: bad, GoodAlg: good}
+					r.Report("session", c, session(c))
+				}
+			}
+		}
+	}
 	skipped := 0
 	for _, issuer := range []string{"", "RSA-2048", "P-384", "brainpoolP384r1"} {
 		for _, ka := range append([]string{""}, keyAlgNames...) {
@@ -208,4 +228,82 @@ func TestC05(t *testing.T) {
 	}
 	r.Exhaustive = !r.Quick() && !r.TimedOut
 	_ = ecref.ConfigNames
+}
+
+// ---- one open database, several attempts (callers of the Database API): an attempt that failed must not leave
+// key material behind that a later, corrected attempt then takes for "the existing key"
+
+type c05Session struct {
+	IssuerAlg string // key algorithm of the pre-placed issuer
+	BadAlg    string // key algorithm of the first, failing attempt (signature algorithm of the wrong family)
+	GoodAlg   string // key algorithm of the corrected attempt
+}
+
+func checkC05Session(c c05Session) *core.Failure {
+	issSig := fittingSigAlgs(keyKind(c.IssuerAlg))[1]
+	wrongSig := fittingSigAlgs(map[string]string{"rsa": "ec", "ec": "rsa"}[keyKind(c.IssuerAlg)])[1]
+	w := World{Files: map[string][]byte{"issuer.pem": core.PemBlock("PRIVATE KEY", pkcs8Fixed(c.IssuerAlg, 7))}}
+	w.Ents = []core.Entity{{File: "issuer.yaml", Subject: []core.RDN{{Key: "CN", Value: "C05 issuer"}}, KeyAlg: c.IssuerAlg, SigAlg: issSig},
+		{File: "subject.yaml", Subject: []core.RDN{{Key: "CN", Value: "C05 subject"}}, Issuer: "issuer", KeyAlg: c.BadAlg, SigAlg: wrongSig}}
+	d := w.Dir()
+	d.Tick(10)
+	dbase := filesystem.NewFilesystemDatabase(&core.MemFS{D: d})
+	if err := dbase.Open(); err != nil {
+		return core.Failf("C05/session/setup", "open: %v", err)
+	}
+	defer dbase.Close()
+	var pan any
+	var err1, err2 error
+	func() {
+		defer func() { pan = recover() }()
+		var plan db.ChangeList
+		if plan, err1 = db.PlanBulkUpdate(dbase, db.UpdateStrategy(core.FlagDefault)); err1 == nil {
+			_, err1 = db.BulkUpdate(dbase, plan)
+		}
+	}()
+	if pan != nil {
+		return core.Failf("C05/panic", "gopki panicked: %v", pan)
+	}
+	if err1 == nil {
+		return core.Failf("C05/mismatch-not-refused", "a %s signature under a %s issuer was not refused", wrongSig, c.IssuerAlg)
+	}
+	// the corrected configuration, parsed by gopki itself, handed to the same database object
+	good := w.Ents[1]
+	good.KeyAlg, good.SigAlg = c.GoodAlg, issSig
+	parsed, err := config.ParseConfig(bytes.NewReader(good.Render()))
+	if err != nil {
+		return core.Failf("C05/session/setup", "corrected configuration does not parse: %v", err)
+	}
+	cc, ok := parsed.(*config.CertificateContent)
+	if !ok {
+		return core.Failf("C05/session/setup", "corrected configuration parses to %T", parsed)
+	}
+	cc.Alias = "subject"
+	func() {
+		defer func() { pan = recover() }()
+		_, err2 = db.AddAndSign(dbase, *cc, true)
+	}()
+	if pan != nil {
+		return core.Failf("C05/panic", "db.AddAndSign panicked: %v", pan)
+	}
+	if err2 != nil {
+		return core.Failf("C05/session/corrected-attempt-failed", "after a failed attempt (%v) the corrected configuration (keyAlgorithm %s, %s) is refused on the same database: %v", err1, c.GoodAlg, issSig, err2)
+	}
+	dec, derr := readEntity(d, &w.Ents[1])
+	if derr != nil || dec.Cert == nil || dec.Key == nil {
+		return core.Failf("C05/session/no-artifact", "no certificate and key after the corrected attempt: %v", derr)
+	}
+	want := c.GoodAlg
+	got := dec.Key.Describe()
+	if isRSAName(want) {
+		if dec.Key.Kind != "rsa" || dec.Key.N.BitLen() != rsaBits(want) {
+			return core.Failf("C05/key-algorithm", "corrected attempt asked for %s, the stored key is %s (left over from the failed %s attempt?)", want, got, c.BadAlg)
+		}
+	} else if dec.Key.Kind != "ec" || dec.Key.Curve == nil || dec.Key.Curve.OID != curveOIDByName[want] {
+		return core.Failf("C05/key-algorithm", "corrected attempt asked for %s, the stored key is %s (left over from the failed %s attempt?)", want, got, c.BadAlg)
+	}
+	if !bytes.Equal(dec.Cert.SPKIBits, dec.Key.PublicBits()) {
+		return core.Failf("C05/spki-key", "the certificate does not carry the stored key's public key")
+	}
+	return nil
 }
